@@ -497,6 +497,101 @@ fn decode(mut idx: usize, len: usize, base: usize) -> Vec<usize> {
     s
 }
 
+
+/// C05 for containers that come off the wire: every entry sequence of length <= `len` over a small key / value
+/// alphabet - REPEATED KEYS INCLUDED, which no serializer of this crate emits but any peer may send - decoded into
+/// every capacity 0..=4 through the token deserializer (with and without size hints), `deserialize_in_place` into a
+/// pre-filled target, and bincode. The decoder may refuse (error or the container's own overflow panic); whatever
+/// it hands back must satisfy the invariants: keys pairwise unequal, `len()` == entries yielded <= capacity,
+/// `is_empty()` consistent, every yielded key looks up to the value yielded with it.
+fn wire_inputs<const M: usize>(cx: &mut Ctx, k: u8, v: u8, len: usize) -> u64 {
+    use std::panic::{catch_unwind, AssertUnwindSafe};
+    let base = (k as usize) * (v as usize);
+    let mut n_inputs = 0u64;
+    for l in 0..=len {
+        for idx in 0..base.pow(l as u32) {
+            let seq = decode(idx, l, base);
+            let entries: Vec<(u8, u8)> = seq.iter().map(|x| ((x / v as usize) as u8, (x % v as usize) as u8)).collect();
+            n_inputs += 1;
+            cx.here.path = vec![format!("wire input {entries:?}")];
+            let mut map_toks = vec![Tok::MapStart(Some(l))];
+            let mut seq_toks = vec![Tok::SeqStart(Some(l))];
+            for (kk, vv) in &entries {
+                map_toks.extend([Tok::U8(*kk), Tok::U8(*vv)]);
+                seq_toks.push(Tok::U8(*kk));
+            }
+            map_toks.push(Tok::End);
+            seq_toks.push(Tok::End);
+            let judge_map = |cx: &mut Ctx, what: &str, m: &Map<u8, u8, M>| {
+                let items: Vec<(u8, u8)> = m.iter().map(|(a, b)| (*a, *b)).collect();
+                let mut keys: Vec<u8> = items.iter().map(|e| e.0).collect();
+                keys.sort_unstable();
+                keys.dedup();
+                cx.check(C05, keys.len() == items.len(), || format!("{what} of {entries:?} into Map<_,_,{M}>: the decoded map yields a key twice: {items:?}"));
+                cx.check(C05, m.len() == items.len() && m.len() <= m.capacity() && m.capacity() == M && m.is_empty() == items.is_empty(), || {
+                    format!("{what} of {entries:?}: len() {} but {} entries are yielded (capacity {})", m.len(), items.len(), m.capacity())
+                });
+                for (a, b) in &items {
+                    cx.check(C05, m.get(a) == Some(b) && m.contains_key(a), || format!("{what} of {entries:?}: yields ({a}, {b}) but get({a}) is {:?}", m.get(a)));
+                }
+            };
+            let judge_set = |cx: &mut Ctx, what: &str, m: &Set<u8, M>| {
+                let items: Vec<u8> = m.iter().copied().collect();
+                let mut keys = items.clone();
+                keys.sort_unstable();
+                keys.dedup();
+                cx.check(C05, keys.len() == items.len(), || format!("{what} of {entries:?} into Set<_,{M}>: the decoded set yields an element twice: {items:?}"));
+                cx.check(C05, m.len() == items.len() && m.len() <= m.capacity() && m.is_empty() == items.is_empty(), || {
+                    format!("{what} of {entries:?}: len() {} but {} elements are yielded", m.len(), items.len())
+                });
+                for a in &items {
+                    cx.check(C05, m.contains(a) && m.get(a) == Some(a), || format!("{what} of {entries:?}: yields {a} but contains({a}) is false"));
+                }
+            };
+            for hints in [false, true] {
+                cx.here.op = format!("deserialize (size hints: {hints})");
+                cx.evaluations += 2;
+                let r = catch_unwind(AssertUnwindSafe(|| Map::<u8, u8, M>::deserialize(&mut De { toks: &map_toks, pos: 0, hints })));
+                if let Ok(Ok(m)) = &r {
+                    judge_map(cx, "deserialize", m);
+                }
+                cx.class(match &r { Ok(Ok(_)) => "wire:map:decoded", Ok(Err(_)) => "wire:map:error", Err(_) => "wire:map:panic" });
+                let r = catch_unwind(AssertUnwindSafe(|| Set::<u8, M>::deserialize(&mut De { toks: &seq_toks, pos: 0, hints })));
+                if let Ok(Ok(m)) = &r {
+                    judge_set(cx, "deserialize", m);
+                }
+                // in place, into a target that already holds the first key of the input with another value
+                cx.here.op = format!("deserialize_in_place (size hints: {hints})");
+                let mut target = Map::<u8, u8, M>::new();
+                if M > 0 {
+                    target.insert(entries.first().map_or(0, |e| e.0), 7);
+                }
+                let r = catch_unwind(AssertUnwindSafe(|| <Map<u8, u8, M> as Deserialize>::deserialize_in_place(&mut De { toks: &map_toks, pos: 0, hints }, &mut target)));
+                if let Ok(Ok(())) = r {
+                    judge_map(cx, "deserialize_in_place", &target);
+                }
+            }
+            // bincode (legacy config): u64 length prefix, then the entries
+            cx.here.op = "bincode decode".to_string();
+            let mut mb = (l as u64).to_le_bytes().to_vec();
+            let mut sb = mb.clone();
+            for (kk, vv) in &entries {
+                mb.extend([*kk, *vv]);
+                sb.push(*kk);
+            }
+            let r = catch_unwind(|| bincode::serde::decode_from_slice::<Map<u8, u8, M>, _>(&mb, bincode::config::legacy()));
+            if let Ok(Ok((m, _))) = &r {
+                judge_map(cx, "bincode decode", m);
+            }
+            let r = catch_unwind(|| bincode::serde::decode_from_slice::<Set<u8, M>, _>(&sb, bincode::config::legacy()));
+            if let Ok(Ok((m, _))) = &r {
+                judge_set(cx, "bincode decode", m);
+            }
+        }
+    }
+    n_inputs
+}
+
 fn run_n<const N: usize>(rep: &mut EngineReport, k: u8, v: u8, depth: usize, threads: usize, replay: Option<(Vec<u32>, bool)>) -> i32 {
     let mut ops = Vec::new();
     for kk in 0..k {
@@ -567,8 +662,22 @@ fn main() {
         let code = mc::with_n!(n, run_n::<>(&mut rep, k, v, depth, threads, Some((path, is_set))));
         std::process::exit(code);
     }
-    for n in ns {
-        mc::with_n!(n, run_n::<>(&mut rep, k, v, depth.min(n + 2).max(1), threads, None));
+    if args.props() & C20 != 0 {
+        for n in ns {
+            mc::with_n!(n, run_n::<>(&mut rep, k, v, depth.min(n + 2).max(1), threads, None));
+        }
+    }
+    if args.props() & C05 != 0 {
+        // containers that come off the wire (repeated keys included) must satisfy the invariants
+        let wl = args.usize("wire", 4);
+        let mut cx = rep.cx.fork();
+        cx.here.config = format!("wire inputs: every entry sequence of length <= {wl} over 3 keys x 2 values, repeated keys included, decoded into capacities 0..=4");
+        let t0 = std::time::Instant::now();
+        let n = wire_inputs::<0>(&mut cx, 3, 2, wl) + wire_inputs::<1>(&mut cx, 3, 2, wl) + wire_inputs::<2>(&mut cx, 3, 2, wl) + wire_inputs::<3>(&mut cx, 3, 2, wl) + wire_inputs::<4>(&mut cx, 3, 2, wl);
+        rep.configs.push(J::obj().set("config", cx.here.config.as_str()).set("inputs", n).set("wall_s", t0.elapsed().as_secs_f64()));
+        rep.states += n;
+        rep.transitions += cx.evaluations;
+        rep.cx.merge(cx);
     }
     std::process::exit(rep.finish(args.get("out")));
 }
